@@ -103,6 +103,79 @@ EXCEPTIONS = {
 NEUTRAL = {"FastStochastic": 50.0, "CommodityChannelIndex": 0.0}
 
 
+def v6_flat_exact_zero(F, S):
+    """RateOfChange and TrueRange return 0 EXACTLY on a flat window.  Every data atom of the evaluated output (input, bar getters,
+    window slots, the remembered previous close) is replaced by one symbol v; the term must then reduce to the literal 0 using only
+    rewrites that are exact in binary64: x - x = 0, 0 * y = 0 and 0 / y = 0 for finite non-zero y, |0| = 0, max(0, 0) = 0.
+    `v*100/v - 100` does not reduce this way — and indeed is +-1.4e-14 for one price in forty."""
+    from terms import cf, is_const, leaves, mk_gamma, show, simp
+    V = ("flat", "v")
+    Z = cf(0.0)
+
+    def is_zero(t):
+        return is_const(t) and t[1] in ("f64", "int") and t[2] == 0
+
+    def data_field(path):
+        parts = path.split(".")
+        if len(parts) < 2 or parts[0] != "self":
+            return False
+        return True
+
+    def red(t, struct):
+        if not isinstance(t, tuple) or not t:
+            return t
+        h = t[0]
+        if t == ("arg", "a0") or h in ("get", "select"):
+            return V
+        if h == "pre" and isinstance(t[1], str) and t[1].startswith("self."):
+            f0 = t[1].split(".")[1]
+            ty = next((x["ty"]["s"] for x in (F.struct_fields(struct) or []) if x["name"] == f0), "")
+            return V if ("f64" in ty and "usize" not in ty) else t
+        if h == "gamma":
+            a, b = red(t[2], struct), red(t[3], struct)
+            return a if a == b else ("gamma", t[1], a, b)
+        xs = tuple(red(x, struct) if isinstance(x, tuple) else x for x in t[1:])
+        if h == "-" and len(xs) == 2 and xs[0] == xs[1]:
+            return Z
+        if h == "-" and len(xs) == 2 and is_zero(xs[1]):
+            return xs[0]
+        if h == "+" and len(xs) == 2 and (is_zero(xs[0]) or is_zero(xs[1])):
+            return xs[1] if is_zero(xs[0]) else xs[0]
+        if h == "*" and len(xs) == 2 and (is_zero(xs[0]) or is_zero(xs[1])):
+            o = xs[1] if is_zero(xs[0]) else xs[0]
+            if o == V or (is_const(o) and o[2] == o[2] and abs(o[2]) != float("inf")):
+                return Z
+        def nonzero(y):
+            # v, a non-zero literal, and their products / quotients (v / 100.0: one percent of the price)
+            if y == V or (is_const(y) and y[2] == y[2] and y[2] not in (0, 0.0) and abs(y[2]) != float("inf")):
+                return True
+            return isinstance(y, tuple) and len(y) == 3 and y[0] in ("*", "/") and nonzero(y[1]) and nonzero(y[2])
+        if h == "/" and len(xs) == 2 and is_zero(xs[0]) and nonzero(xs[1]):
+            return Z
+        if h in ("abs", "neg") and len(xs) == 1 and is_zero(xs[0]):
+            return Z
+        if h in ("max", "min") and xs and all(is_zero(x) for x in xs):
+            return Z
+        return (h,) + xs
+    for struct, kinds in (("RateOfChange", ["f64"]), ("TrueRange", ["f64", "&T"])):
+        for kind in kinds:
+            fn = F.method(struct, "next", trait="Next", next_input=kind)
+            if fn is None:
+                S.bad("V6", "anchor", "%s:%s" % (struct, kind), "%s::next(%s) not found" % (struct, kind))
+                continue
+            try:
+                r = symex.evaluate(F, fn, symex.Policy(F, modular=False), canon=True)
+            except symex.Unsupported as e:
+                S.bad("V6", "unrecognised", fn.label, "UNRECOGNISED idiom: %s" % e, loc(fn.span))
+                continue
+            t = red(r["ret"], struct)
+            bad = [lf for _, lf in leaves(t) if not is_zero(lf)]
+            if bad:
+                S.bad("V6", "flat-not-exact-zero", fn.label, "%s on a flat window evaluates to %s, which does not reduce to the literal 0 by exact rewrites: the documented 'exactly 0' holds in real arithmetic only" % (fn.label, show(bad[0])[:120]), loc(fn.span))
+            else:
+                S.ok("V6", "%s: 0 exactly on a flat window" % fn.label)
+
+
 def apply(F, S, exceptions=EXCEPTIONS):
     sites = {}
     sq = {}
@@ -275,6 +348,8 @@ def run(tier, repo=None, tag="repo"):
     rep.rule("V5", "on a flat window StandardDeviation and MeanAbsoluteDeviation are 0 in exact arithmetic: corollary of the window invariants (m = window mean, m2 = sum of squared deviations; sum = window sum) of C01-I3/I4, re-established here", 2)
     F = ir.load("default", repo, tag)
     apply(F, Sink(rep))
+    rep.rule("V6", "RateOfChange and TrueRange are exactly 0 on a flat window: with every data atom replaced by one symbol the output reduces to the literal 0 by float-exact rewrites only", 3)
+    v6_flat_exact_zero(F, Sink(rep))
     import rules_c01
     from rules_c09 import _Map
     m_ = _Map(rep, {"I3": "V5", "I4": "V5"})
